@@ -217,14 +217,14 @@ fn main() {
   if args.len() >= 3 && args[1] == "stress" {
     std::panic::set_hook(Box::new(|_| {}));
     child::stress_watchdog(15, "first-use stress");
-    let r = child::run_stress(args[2].parse().unwrap_or(0));
+    let r = child::run_stress(args[2].parse().unwrap_or(0), args.get(3).map(|s| s.as_str()));
     println!("RESULT {}", r);
     std::process::exit(0);
   }
   if args.len() >= 3 && args[1] == "stress-mixed" {
     std::panic::set_hook(Box::new(|_| {}));
     child::stress_watchdog(15, "cross-table first-use stress");
-    let r = child::run_stress_mixed(args[2].parse().unwrap_or(0));
+    let r = child::run_stress_mixed(args[2].parse().unwrap_or(0), args.get(3).map(|s| s.as_str()));
     println!("RESULT {}", r);
     std::process::exit(0);
   }
@@ -273,6 +273,17 @@ fn main() {
     eprintln!("[c20sched] MACHINERY ERROR: no single-threaded reference");
     std::process::exit(2);
   }
+  // the reference, for the free-running stress children
+  let ref_path = format!("{}/engine/out/C20.reference.json", verif_dir);
+  {
+    let mut v: Vec<Value> = oracle.reference.values().cloned().collect();
+    v.sort_by_key(|x| x["depth"].as_u64().unwrap_or(0));
+    let _ = std::fs::create_dir_all(format!("{}/engine/out", verif_dir));
+    if std::fs::write(&ref_path, Value::Array(v).to_string()).is_err() {
+      eprintln!("[c20sched] MACHINERY ERROR: cannot write {}", ref_path);
+      std::process::exit(2);
+    }
+  }
 
   if let Some(path) = replay {
     let doc: Value = serde_json::from_str(&std::fs::read_to_string(&path).expect("read replay")).expect("parse replay");
@@ -282,7 +293,7 @@ fn main() {
       let exe = std::env::current_exe().unwrap();
       let mut bad = false;
       for k in 0..80u64 {
-        let out = Command::new(&exe).arg(if k % 2 == 0 { "stress" } else { "stress-mixed" }).arg((k / 2).to_string()).output().expect("stress child");
+        let out = Command::new(&exe).arg(if k % 2 == 0 { "stress" } else { "stress-mixed" }).arg((k / 2).to_string()).arg(&ref_path).output().expect("stress child");
         let r: Value = String::from_utf8_lossy(&out.stdout).lines().find_map(|l| l.strip_prefix("RESULT ").map(|r| serde_json::from_str::<Value>(r).ok())).flatten().unwrap_or(json!({}));
         if r["stress"] != json!("done") || r["problems"].as_array().map(|a| !a.is_empty()).unwrap_or(true) {
           bad = true;
@@ -447,14 +458,16 @@ fn main() {
   let stress_info = {
     let nproc: u64 = if quick { 32 } else { 320 }; // even: same-table rounds, odd: cross-table rounds
     let items: Vec<u64> = (0..nproc).collect();
-    let results = par_map(&items, |&k| {
+    // one child at a time: each child spins up to 15 threads on a gate, and the first uses only
+    // overlap if every thread has a core of its own
+    let results: Vec<Option<Value>> = items.iter().map(|&k| {
       let exe = std::env::current_exe().unwrap();
       let mode = if k % 2 == 0 { "stress" } else { "stress-mixed" };
-      match Command::new(exe).arg(mode).arg((k / 2).to_string()).output() {
+      match Command::new(exe).arg(mode).arg((k / 2).to_string()).arg(&ref_path).output() {
         Ok(o) => String::from_utf8_lossy(&o.stdout).lines().find_map(|l| l.strip_prefix("RESULT ").map(|r| serde_json::from_str::<Value>(r).ok())).flatten(),
         Err(_) => None,
       }
-    });
+    }).collect();
     let mut first_problem: Option<Value> = None;
     for r in results.into_iter() {
       match r {
